@@ -154,3 +154,42 @@ func zzShape() int {
 func zzC12bShape1() { zzShapeFixed = 1; zzC12bHostileFrames() }
 func zzC12bShape4() { zzShapeFixed = 4; zzC12bHostileFrames() }
 func zzC12bShape6() { zzShapeFixed = 6; zzC12bHostileFrames() }
+
+// C11.p2: messages of every size class survive the real protobuf byte codec, in sequence through the
+// same encoder (pooled buffers are reused and grown), and the codec's byte counts equal the bytes
+// produced / consumed.
+func zzC11p2Sizes() {
+	e := NewEncoding()
+	sizes := []int{0, 1, 100, 4090, 4096, 5000, 300, 20000}
+	first := vf.Choose("first.size", len(sizes))
+	for round := 0; round < 3; round++ {
+		n := sizes[(first+round*3)%len(sizes)]
+		payload := make([]byte, n)
+		if n > 0 {
+			payload[0] = vf.U8("b" + string(rune('0'+round)) + ".first")
+			payload[n-1] = vf.U8("b" + string(rune('0'+round)) + ".last")
+		}
+		m := &message.UpstreamChunk{StreamIDAlias: 7, StreamChunk: &message.StreamChunk{SequenceNumber: uint32(round + 1),
+			DataPointGroups: []*message.DataPointGroup{{DataIDOrAlias: message.DataIDAlias(3), DataPoints: []*message.DataPoint{{ElapsedTime: 5, Payload: payload}}}}}}
+		var buf bytes.Buffer
+		wn, err := e.EncodeTo(&buf, m)
+		vf.Assert("encode-ok", err == nil)
+		vf.Assert("count-produced", wn == buf.Len())
+		vf.Assert("frame-not-much-larger-than-payload", buf.Len() <= n+64)
+		total := buf.Len()
+		rn, back, derr := e.DecodeFrom(&buf)
+		vf.Assert("decode-ok", derr == nil)
+		vf.Assert("count-consumed", rn == total)
+		g, ok := back.(*message.UpstreamChunk)
+		vf.Assert("same-type", ok)
+		if ok {
+			ps := g.StreamChunk.DataPointGroups[0].DataPoints[0].Payload
+			vf.Assert("payload-length", len(ps) == n)
+			if n > 0 && len(ps) == n {
+				vf.Assert("payload-ends", ps[0] == payload[0] && ps[n-1] == payload[n-1])
+			}
+			vf.Assert("sequence-number", g.StreamChunk.SequenceNumber == uint32(round+1) && g.StreamIDAlias == 7)
+		}
+	}
+	vf.Reach("end")
+}
